@@ -39,7 +39,8 @@ ASSUMPTIONS = ["debug worker, Job.run (run_async is modelled, exercised only thr
                "the directory part of C35_finally_region is stated while the lock is still held; afterwards it "
                "persists in single-submitter histories (C35_outside_leaves_directory)"]
 RULE = ("one process, 1-3 submissions of one task (succeeding or failing body, rerun or not) with counting task hooks; "
-        "an exception injected at one (checkpoint label, occurrence) or a raising pre_run_task / post_run_task hook; "
+        "an exception injected at one (checkpoint label, occurrence), a raising pre_run_task / post_run_task hook, or "
+        "a body / post_run_task hook that calls os.chdir to another directory and does not come back; "
         "distinct = distinct (body kind, injection point, history); non-trivial = an exception was actually raised "
         "during a submission that executed the task (not a plain successful run)")
 
@@ -100,6 +101,13 @@ def gen_scenarios(ctx, corpus):
     for hook in ("pre_run_task", "post_run_task"):
         out.append(mk("c35-hook-%s" % hook, ok_task(), [dict(hook_raises=hook)])); k += 1
     out.append(mk("c35-hookfail-post", bad_task(), [dict(hook_raises="post_run_task")]))
+    # user code that moves the process: the body (returning or raising afterwards), the post_run_task hook
+    out.append(mk("c35-body-chdir", dict(task="python", x=rng.randrange(1, 40), chdir=True), [{}]))
+    out.append(mk("c35-body-chdir-fails", dict(task="python", x=rng.randrange(1, 40), chdir=True, fail=True), [{}]))
+    out.append(mk("c35-hook-chdir", ok_task(), [dict(hook_chdir=True)]))
+    if full:
+        out.append(mk("c35-body-chdir-hist", dict(task="python", x=rng.randrange(1, 40), chdir=True), [{}, {}, dict(rerun=True)]))
+        out.append(mk("c35-body-chdir-inj", dict(task="python", x=rng.randrange(1, 40), chdir=True), [{}], ("job.body_left", 1)))
     # histories without injection: hits, reruns, failing bodies executed again
     hist = [[{}, {}], [{}, dict(rerun=True)], [{}, {}, dict(rerun=True)], [dict(rerun=True), {}]]
     for h in (hist if full else hist[:2]):
@@ -118,7 +126,7 @@ def run(ctx):
         results = list(ex.map(procs.run_scenario, scs))
     out = Outcome(rule=RULE)
     cases, seen = [], set()
-    dist = {"inject_pre_try": 0, "inject_try": 0, "inject_handler": 0, "inject_finally": 0, "inject_outside": 0,
+    dist = {"body_or_hook_chdir": 0, "inject_pre_try": 0, "inject_try": 0, "inject_handler": 0, "inject_finally": 0, "inject_outside": 0,
             "raising_hook": 0, "failing_body": 0, "histories": 0, "submissions": 0}
     nontrivial = 0
     for sc, res in zip(scs, results):
@@ -130,6 +138,8 @@ def run(ctx):
         for name, group in (("pre_try", PRE_TRY), ("try", TRY), ("handler", HANDLER), ("finally", FINALLY), ("outside", OUTSIDE)):
             dist["inject_" + name] += inj in group
         hooks = any(s.get("hook_raises") for s in ch["subs"])
+        moved = bool(sc["task"].get("chdir")) or any(s.get("hook_chdir") for s in ch["subs"])
+        dist["body_or_hook_chdir"] += moved
         dist["raising_hook"] += hooks
         dist["failing_body"] += bool(sc["task"].get("fail"))
         dist["histories"] += len(ch["subs"]) > 1
@@ -137,7 +147,7 @@ def run(ctx):
         sig = (bool(sc["task"].get("fail")), inj, json.dumps(ch["subs"], sort_keys=True))
         if sig not in seen:
             seen.add(sig)
-            if (inj or hooks or sc["task"].get("fail")) and execs > 0:
+            if (inj or hooks or moved or sc["task"].get("fail")) and execs > 0:
                 nontrivial += 1
         if res["hang"]:
             out.failures.append(Failure(case={"scenario": sc}, observed=_obs(res), expected="the submission ends",
